@@ -9,6 +9,10 @@ params:
               shield True: the combinator gets f_nocancel(input)
               pre    True: completed by the main thread before the combinator is called
               run    True: the input is in the RUNNING state (running() is True, cancel() is refused)
+              et     kind 3 only: class of the exception the input fails with: None (an ordinary Exception) |
+                     "cancelled_error" (an INSTANCE of concurrent.futures.CancelledError: a failure, not a
+                     cancellation - e.g. what pool.submit(other.result) records when `other` was cancelled) |
+                     "base" (derives from BaseException only)
   pos       input id per argument position (default 1..n; repeat an id for a duplicated input)
   early     True: completer threads are started before the combinator is called (they race with the
             registration of the callbacks)
@@ -121,7 +125,12 @@ def build(p):
                 vals[i] = v
                 vids[i] = S.ident_val(v)
             elif kind == 3:
-                vals[i] = H.UserError("x%d" % i)
+                if spec.get("et") == "cancelled_error":
+                    vals[i] = cf.CancelledError("x%d" % i)
+                elif spec.get("et") == "base":
+                    vals[i] = H.AbortOutcome("x%d" % i)
+                else:
+                    vals[i] = H.UserError("x%d" % i)
                 vids[i] = S.ident(vals[i], "val")
             else:
                 vids[i] = -1
